@@ -26,7 +26,13 @@ fn special_forms(ch: &mut Chooser) -> Form {
     let q = |d: Datum| Expr::Quote(d);
     // forms whose value is unspecified (nothing is printed), and a stray closing parenthesis (opens nothing:
     // submitted at once, reported as an error, and the session goes on)
-    match ch.below(12) {
+    match ch.below(16) {
+        // values whose printed text is empty, ends in a line break, or holds a carriage return + line feed
+        12 => return Form::Raw("\"\"".into()),
+        13 => return Form::Raw(ch.pick_s(&["\"end\\n\"", "\"\\n\"", "(list \"two\\n\\n\" 1)"]).to_string()),
+        14 => return Form::Raw(ch.pick_s(&["\"a\\r\\nb\"", "\"cr\\r\""]).to_string()),
+        // complete submissions that the parser rejects for a missing operand
+        15 => return Form::Raw(ch.pick_s(&["(if)", "(define y)", "(lambda)", "(quote)", "(set! wn)", "(define)"]).to_string()),
         6 => return Form::Expr(Expr::Set("wn".into(), Box::new(Expr::Int(5)))),
         7 => return Form::Expr(app("vector-set!", vec![var("wv"), Expr::Int(1), Expr::Quote(Datum::Sym("x".into()))])),
         8 => return Form::Expr(Expr::If(Box::new(Expr::Bool(false)), Box::new(Expr::Bool(false)), None)),
@@ -254,6 +260,8 @@ pub fn judge(c: &SessionCase) -> Report {
         }
     }
     exp_out.push("exited. have a nice day.".to_string());
+    // byte for byte: every printed value is followed by exactly one line break
+    let exp_raw: String = exp_out.iter().map(|v| format!("{}\n", v)).collect();
     // values may print over several lines
     let exp_out: Vec<String> = exp_out.join("\n").lines().map(|l| l.to_string()).collect();
     let dir = scratch("c18");
@@ -288,6 +296,13 @@ pub fn judge(c: &SessionCase) -> Report {
             rep.fail(
                 if si == 0 { "transcript-differs-from-in-process-evaluation" } else { "transcript-depends-on-line-splitting" },
                 format!("splitting {} (input {:?}): expected stdout {:?}, got {:?}", si, input, exp_out, out),
+            );
+            break;
+        }
+        if r.stdout != exp_raw {
+            rep.fail(
+                "transcript-bytes-differ-from-in-process-evaluation",
+                format!("splitting {} (input {:?}): expected stdout {:?}, got {:?}", si, input, exp_raw, r.stdout),
             );
             break;
         }
